@@ -8,21 +8,17 @@ From PyGql Require Import Lang.PrinterModel Spec.PrinterSpec Lang.Parser Spec.Gr
                           Proofs.PrinterRoundtrip Proofs.PrinterSdlRoundtrip.
 From PyGql Require Import Spec.SdlSpec Schema.SdlPrint Spec.SdlRoundtripSpec.
 From PyGql Require Import Proofs.SdlProofs Proofs.SdlExactProofs Proofs.SdlOrderProofs Proofs.SdlPrintProofs
-                          Proofs.SdlTextProofs Proofs.SdlTextSchemaProofs Proofs.SdlDescLexProofs Proofs.SdlTextDescProofs
+                          Proofs.SdlTextProofs Proofs.SdlTextSchemaProofs Proofs.SdlDescLexProofs Proofs.SdlTextDescProofs Proofs.SdlMemberDescProofs
                           Proofs.SdlDocRoundtripProofs Proofs.SdlValidInvProofs Proofs.SdlDocRulesProofs.
 From Coq Require Import Lia Sorting.Permutation Sorting.Sorted.
 
 (* the guards that exclude the open findings: every default's literal coerces
    back at its declared type (custom-scalar-numeric-string-default of C12),
    and the emitted document is outside the two findings of C11 *)
-Definition doc_s (sc : schema) : document := doc_d (POpts [] true false CustomOff) sc.
-
-Lemma doc_d_s o sc : doc_d o sc = doc_s sc.
-Proof. apply doc_d_indep. Qed.
-
 Definition defaults_guard (sc : schema) : Prop :=
-  (forall a, In a (schema_ivalues sc) -> default_rt (env_of_schema [] sc) (declared_env (doc_s sc)) a)
-  /\ defaults_stable (doc_s sc).
+  exists d, ast_of_schema sc = Ok d
+            /\ (forall a, In a (schema_ivalues sc) -> default_rt (env_of_schema [] sc) (declared_env d) a)
+            /\ defaults_stable d.
 
 (* schemas without descriptions are a special case *)
 Lemma clear_tdesc_id t : tdef_desc t = None -> clear_tdesc t = t.
@@ -88,19 +84,30 @@ Proof.
         cbn [def_ivalues] in Hiv. apply (Hargs _ _ (omap_inv _ _ _ Ho) Hin Hiv).
 Qed.
 
-Lemma no_defaults_guard o sc : desc_schema o sc -> no_defaults sc -> defaults_guard sc.
+Lemma no_defaults_guard sc d : ast_of_schema sc = Ok d -> no_defaults sc -> defaults_guard sc.
 Proof.
-  intros Hp Hnd. pose proof (ast_of_schema_desc o sc Hp) as Hast. rewrite doc_d_s in Hast. split.
+  intros Hast Hnd. exists d. split; [exact Hast|]. split.
   - intros a Ha. unfold default_rt. rewrite (Hnd a Ha). discriminate.
-  - pose proof (ast_no_defaults sc (doc_s sc) Hast Hnd) as Hdoc.
+  - pose proof (ast_no_defaults sc d Hast Hnd) as Hdoc.
     split; intros iv Hin v Hv; exfalso.
     + unfold base_ivalues in Hin. apply in_flat_map in Hin. destruct Hin as (x & Hx & Hiv).
-      assert (Hx' : In x (doc_defs (doc_s sc))).
+      assert (Hx' : In x (doc_defs d)).
       { apply in_app_or in Hx. destruct Hx as [Hx|Hx]; apply filter_In in Hx; apply Hx. }
       rewrite (Hdoc x iv Hx' Hiv) in Hv. discriminate.
     + unfold ext_ivalues, type_exts in Hin. apply in_flat_map in Hin. destruct Hin as (x & Hx & Hiv).
       apply filter_In in Hx. destruct Hx as [Hx' _].
       rewrite (Hdoc x iv Hx' Hiv) in Hv. discriminate.
+Qed.
+
+(* from the parsed document to the rebuilt schema *)
+Lemma roundtrip_from_parse fl sc text d :
+  parse_document fl text = Ok d -> ast_of_schema sc = Ok d -> schema_okb sc = true -> defaults_guard sc ->
+  exists sc', build_model (BOpts true []) d = Ok sc' /\ roundtrip_equiv sc' sc = true /\ declares_again sc sc'.
+Proof.
+  intros _ Hast Hok (d' & Hast' & Hrt & Hstable). rewrite Hast in Hast'. injection Hast' as <-.
+  exists (declared d).
+  destruct (members_roundtrip_guarded sc d Hok Hast Hrt Hstable) as (_ & Hb & He & _).
+  split; [exact Hb|]. split; [exact He|]. exact (declared_of_ast_struct sc d Hok Hast Hrt).
 Qed.
 
 (* C12_text_roundtrip *)
@@ -114,13 +121,10 @@ Theorem text_roundtrip intro spec o fl sc text :
                 /\ roundtrip_equiv sc' sc = true
                 /\ declares_again sc sc'.
 Proof.
-  intros Hp Hl Hok [Hrt Hstable] Hi Hnl Hts Hws Hprint.
+  intros Hp Hl Hok Hg Hi Hnl Hts Hws Hprint.
   destruct (text_parses_desc intro spec o fl sc text Hp Hl Hi Hnl Hts Hws Hprint) as [Hparse Hast].
-  rewrite doc_d_s in Hparse, Hast.
-  exists (doc_s sc), (declared (doc_s sc)). split; [exact Hparse|].
-  destruct (members_roundtrip_guarded sc (doc_s sc) Hok Hast Hrt Hstable) as (_ & Hb & He & _).
-  split; [exact Hb|]. split; [exact He|].
-  exact (declared_of_ast_struct sc (doc_s sc) Hok Hast Hrt).
+  destruct (roundtrip_from_parse fl sc text _ Hparse Hast Hok Hg) as (sc' & H1 & H2 & H3).
+  exists (doc_d o sc), sc'. auto.
 Qed.
 
 (* ------------------------------------------------------------------ *)
@@ -458,4 +462,263 @@ Proof.
   apply andb_prop in Hok; destruct Hok as [Hok _].
   apply andb_prop in Hok; destruct Hok as [_ Hdupt].
   apply Bool.negb_true_iff in Hdupt. exact Hdupt.
+Qed.
+
+(* ------------------------------------------------------------------ *)
+(* with descriptions on fields, enum values and input fields             *)
+Theorem text_roundtrip_full intro spec o fl sc text :
+  full_schema o sc -> valid_locations sc -> schema_okb sc = true -> defaults_guard sc ->
+  po_introspection o = false ->
+  no_location fl = true -> allow_type_system fl = true -> all_ws (po_indent o) ->
+  print_schema intro spec o sc = Ok text ->
+  exists d sc', parse_document fl text = Ok d
+                /\ build_model (BOpts true []) d = Ok sc'
+                /\ roundtrip_equiv sc' sc = true
+                /\ declares_again sc sc'.
+Proof.
+  intros Hp Hl Hok Hg Hi Hnl Hts Hws Hprint.
+  destruct (text_parses_full intro spec o fl sc text Hp Hl Hi Hnl Hts Hws Hprint) as [Hparse Hast].
+  destruct (roundtrip_from_parse fl sc text _ Hparse Hast Hok Hg) as (sc' & H1 & H2 & H3).
+  exists (doc_f o sc), sc'. auto.
+Qed.
+
+Section FullTransfer.
+  Variable o : popts.
+  Variables E0 E0' : env.
+  Hypothesis Henv : forall n, alookup n E0 = alookup n E0'.
+
+  Lemma strip_d_sev first a b :
+    strip_sev a = strip_sev b -> d_sev o b ->
+    d_sev o a /\ ev_line o first a = ev_line o first b /\ ev_d a = ev_d b.
+  Proof.
+    intros H [Hp Hd].
+    assert (Hf : sev_name a = sev_name b /\ sev_value a = sev_value b /\ sev_desc a = sev_desc b /\ sev_dep a = sev_dep b
+                 /\ custom_dirs (sev_dirs a) = custom_dirs (sev_dirs b)).
+    { clear -H. destruct a, b. unfold strip_sev in H. cbn in *. injection H as -> -> -> -> Hd. repeat split; try reflexivity; assumption. }
+    destruct Hf as (Fn & Fv & Fde & Fdp & Fdi).
+    assert (Hc : strip_sev (clear_sev a) = strip_sev (clear_sev b)).
+    { unfold strip_sev, clear_sev. cbn [sev_name sev_value sev_desc sev_dep sev_dirs]. rewrite Fn, Fv, Fdp, Fdi. reflexivity. }
+    destruct (strip_sev_plain o _ _ Hc Hp) as [Pa Ga].
+    split; [split; [exact Pa|rewrite Fde; exact Hd]|]. split.
+    - unfold ev_line, et, edirs. rewrite Fde, Fn, Fdp, Fdi. reflexivity.
+    - unfold ev_d, edirs. rewrite Fde, Fn, Fdp, Fdi. reflexivity.
+  Qed.
+
+  Lemma strip_d_siv first a b :
+    strip_siv a = strip_siv b -> d_siv o E0 b ->
+    d_siv o E0' a /\ iv_line o E0' first a = iv_line o E0 first b /\ iv_d E0' a = iv_d E0 b.
+  Proof.
+    intros H [Hp Hd].
+    assert (Hf : siv_name a = siv_name b /\ siv_py a = siv_py b /\ siv_type a = siv_type b
+                 /\ siv_default a = siv_default b /\ siv_desc a = siv_desc b
+                 /\ custom_dirs (siv_dirs a) = custom_dirs (siv_dirs b)).
+    { clear -H. destruct a, b. unfold strip_siv in H. cbn in *. injection H as -> -> -> -> -> Hd. repeat split; try reflexivity; assumption. }
+    destruct Hf as (Fn & Fp & Ft & Fd & Fde & Fdi).
+    assert (Hc : strip_siv (clear_siv a) = strip_siv (clear_siv b)).
+    { unfold strip_siv, clear_siv. cbn [siv_name siv_py siv_type siv_default siv_desc siv_dirs]. rewrite Fn, Fp, Ft, Fd, Fdi. reflexivity. }
+    destruct (strip_siv_plain o E0 E0' Henv _ _ Hc Hp) as [Pa Ga].
+    assert (Hiv : iv_text o E0' a = iv_text o E0 b).
+    { change (iv_text o E0' a) with (iv_text o E0' (clear_siv a)). change (iv_text o E0 b) with (iv_text o E0 (clear_siv b)).
+      rewrite <- (pr_input_value_plain o E0' _ Pa), <- (pr_input_value_plain o E0 _ Hp), Ga. reflexivity. }
+    split; [split; [exact Pa|rewrite Fde; exact Hd]|]. split.
+    - unfold iv_line. rewrite Fde, Hiv. reflexivity.
+    - unfold iv_d. rewrite Fde, Fn, Ft, Fdi.
+      assert (Hdf : dflt_of E0' a = dflt_of E0 b).
+      { apply (f_equal iv_default) in Ga. cbn [iv_default iv_of] in Ga. exact Ga. }
+      rewrite Hdf. reflexivity.
+  Qed.
+
+  Lemma strip_d_sf first a b :
+    strip_sf a = strip_sf b -> d_sf o E0 b ->
+    d_sf o E0' a /\ f_line o E0' first a = f_line o E0 first b /\ fd_d E0' a = fd_d E0 b.
+  Proof.
+    intros H [Hp Hd].
+    assert (Hf : sf_name a = sf_name b /\ sf_py a = sf_py b /\ map strip_siv (sf_args a) = map strip_siv (sf_args b)
+                 /\ sf_type a = sf_type b /\ sf_desc a = sf_desc b /\ sf_dep a = sf_dep b
+                 /\ custom_dirs (sf_dirs a) = custom_dirs (sf_dirs b)).
+    { clear -H. destruct a, b. unfold strip_sf in H. cbn in *. injection H as -> -> Ha -> -> -> Hd. repeat split; try reflexivity; assumption. }
+    destruct Hf as (Fn & Fp & Fa & Ft & Fde & Fdp & Fdi).
+    assert (Hc : strip_sf (clear_sf a) = strip_sf (clear_sf b)).
+    { unfold strip_sf, clear_sf. cbn [sf_name sf_py sf_args sf_type sf_desc sf_dep sf_dirs]. rewrite Fn, Fp, Fa, Ft, Fdp, Fdi. reflexivity. }
+    destruct (strip_sf_plain o E0 E0' Henv _ _ Hc Hp) as [Pa Ga].
+    assert (Hft : ft o E0' a = ft o E0 b).
+    { change (ft o E0' a) with (ft o E0' (clear_sf a)). change (ft o E0 b) with (ft o E0 (clear_sf b)).
+      destruct (ft_facts o E0' _ Pa) as (<- & _). destruct (ft_facts o E0 _ Hp) as (<- & _). rewrite Ga. reflexivity. }
+    split; [split; [exact Pa|rewrite Fde; exact Hd]|]. split.
+    - unfold f_line. rewrite Fde, Hft. reflexivity.
+    - unfold fd_d, fdirs. rewrite Fde, Fn, Ft, Fdp, Fdi.
+      assert (Hargs : map (iv_of E0') (sf_args a) = map (iv_of E0) (sf_args b)).
+      { apply (f_equal fd_args) in Ga. cbn [fd_args fd_of clear_sf sf_args] in Ga. exact Ga. }
+      rewrite Hargs. reflexivity.
+  Qed.
+End FullTransfer.
+
+Lemma items_transfer {A B} (s : A -> A) (P Q : A -> Prop) (line line' : bool -> A -> str) (g g' : A -> B) :
+  (forall first a b, s a = s b -> P b -> Q a /\ line' first a = line first b /\ g' a = g b) ->
+  forall l1 l2 first, map s l1 = map s l2 -> Forall P l2 ->
+    Forall Q l1 /\ first_map line' first l1 = first_map line first l2 /\ map g' l1 = map g l2.
+Proof.
+  intros H. induction l1 as [|a l1 IH]; intros [|b l2] first He Hf; try discriminate; [repeat split; constructor|].
+  cbn [map] in He. injection He as Hab Hl. inversion Hf as [|? ? Hb Hl2]; subst.
+  destruct (H first a b Hab Hb) as (Pa & La & Ga). destruct (IH l2 false Hl Hl2) as (Pl & Ll & Gl).
+  split; [constructor; assumption|]. cbn [first_map map]. rewrite La, Ll, Ga, Gl. split; reflexivity.
+Qed.
+
+Lemma ev_items_first o first vs : map fst (ev_items o first vs) = first_map (ev_line o) first vs.
+Proof. revert first. induction vs as [|f r IH]; intros first; [reflexivity|]. cbn [ev_items first_map map fst]. rewrite IH. reflexivity. Qed.
+
+Section FullTransfer2.
+  Variable o : popts.
+  Variables E0 E0' : env.
+  Hypothesis Henv : forall n, alookup n E0 = alookup n E0'.
+
+  Lemma strip_m_tdef a b :
+    strip_tdef a = strip_tdef b -> m_tdef o E0 b ->
+    m_tdef o E0' a /\ mtext o E0' a = mtext o E0 b /\ mdef E0' a = mdef E0 b.
+  Proof.
+    intros H Hm. pose proof Hm as (Hde & Hdirs & Hname & Hk).
+    destruct a as [n d ds|n d is_ fs ds|n d fs ds|n d ms ds|n d vs ds|n d fs ds],
+             b as [n' d' ds'|n' d' is' fs' ds'|n' d' fs' ds'|n' d' ms' ds'|n' d' vs' ds'|n' d' fs' ds'];
+      cbn [strip_tdef] in H; try discriminate; injection H; clear H;
+      cbn [tdef_desc tdef_dirs tdef_name] in Hde, Hdirs, Hname; subst d'.
+    - intros Hd -> ->. unfold m_tdef, dirs_ok in *. cbn [tdef_desc tdef_dirs tdef_name mtext mdef type_text def1_of].
+      rewrite Hd. repeat split; try assumption; apply Hdirs.
+    - intros Hd Hf -> -> ->. destruct Hk as (Hne & Hfs & His).
+      destruct (items_transfer strip_sf (d_sf o E0) (d_sf o E0') (f_line o E0) (f_line o E0') (fd_d E0) (fd_d E0')
+                  (fun first x y => strip_d_sf o E0 E0' Henv first x y) _ _ true Hf Hfs) as (P & L & G).
+      unfold m_tdef, dirs_ok in *. cbn [tdef_desc tdef_dirs tdef_name mtext mdef].
+      rewrite !(f_items_first o), L, G, Hd. repeat split; try assumption; try apply Hdirs.
+      exact (map_eq_nonempty _ _ _ Hf Hne).
+    - intros Hd Hf -> ->. destruct Hk as (Hne & Hfs).
+      destruct (items_transfer strip_sf (d_sf o E0) (d_sf o E0') (f_line o E0) (f_line o E0') (fd_d E0) (fd_d E0')
+                  (fun first x y => strip_d_sf o E0 E0' Henv first x y) _ _ true Hf Hfs) as (P & L & G).
+      unfold m_tdef, dirs_ok in *. cbn [tdef_desc tdef_dirs tdef_name mtext mdef].
+      rewrite !(f_items_first o), L, G, Hd. repeat split; try assumption; try apply Hdirs.
+      exact (map_eq_nonempty _ _ _ Hf Hne).
+    - intros Hd -> -> ->. unfold m_tdef, dirs_ok in *. cbn [tdef_desc tdef_dirs tdef_name mtext mdef type_text def1_of].
+      rewrite Hd. repeat split; try assumption; try apply Hdirs; apply Hk.
+    - intros Hd Hv -> ->. destruct Hk as (Hne & Hvs).
+      destruct (items_transfer strip_sev (d_sev o) (d_sev o) (ev_line o) (ev_line o) ev_d ev_d
+                  (fun first x y => strip_d_sev o first x y) _ _ true Hv Hvs) as (P & L & G).
+      unfold m_tdef, dirs_ok in *. cbn [tdef_desc tdef_dirs tdef_name mtext mdef].
+      rewrite !ev_items_first, L, G, Hd. repeat split; try assumption; try apply Hdirs.
+      exact (map_eq_nonempty _ _ _ Hv Hne).
+    - intros Hd Hf -> ->. destruct Hk as (Hne & Hfs).
+      destruct (items_transfer strip_siv (d_siv o E0) (d_siv o E0') (iv_line o E0) (iv_line o E0') (iv_d E0) (iv_d E0')
+                  (fun first x y => strip_d_siv o E0 E0' Henv first x y) _ _ true Hf Hfs) as (P & L & G).
+      unfold m_tdef, dirs_ok in *. cbn [tdef_desc tdef_dirs tdef_name mtext mdef].
+      rewrite !(iv_items_first o), L, G, Hd. repeat split; try assumption; try apply Hdirs.
+      exact (map_eq_nonempty _ _ _ Hf Hne).
+  Qed.
+
+  Lemma strip_full_tdef a b :
+    strip_tdef a = strip_tdef b -> full_tdef o E0 b ->
+    full_tdef o E0' a /\ ftext o E0' a = ftext o E0 b /\ fdef E0' a = fdef E0 b.
+  Proof.
+    intros H [Hm Hd]. pose proof (strip_tdef_desc a b H) as Hde.
+    assert (Hc : strip_tdef (clear_tdesc a) = strip_tdef (clear_tdesc b)) by (rewrite !clear_strip, H; reflexivity).
+    destruct (strip_m_tdef _ _ Hc Hm) as (Pa & Ta & Ga).
+    split; [split; [exact Pa|rewrite Hde; exact Hd]|]. split.
+    - unfold ftext. rewrite Hde, Ta. reflexivity.
+    - unfold fdef. rewrite Hde, Ga. reflexivity.
+  Qed.
+End FullTransfer2.
+
+Lemma declares_again_full o sc sc' :
+  full_schema o sc -> has_dup (map tdef_name (s_types sc)) = false ->
+  declares_again sc sc' -> full_schema o sc' /\ full_items o sc' = full_items o sc.
+Proof.
+  intros (Ht & Hd & Hr & Hne) Hdup Hda. pose proof (env_declares_again sc sc' Hdup Hda) as Henv.
+  destruct Hda as (Hts & HD & Rq & Rm & Rs & Rd).
+  set (E0 := env_of_schema [] sc) in *. set (E0' := env_of_schema [] sc') in *.
+  set (st := sort_by tdef_name (s_types sc)) in *. set (sd := sort_by dd_name (s_ddefs sc)) in *.
+  assert (Hst : Forall (full_tdef o E0) st) by (apply sort_by_Forall; exact Ht).
+  assert (Hsd : Forall (dt_ddef o E0) sd) by (apply sort_by_Forall; exact Hd).
+  destruct (map_eq_transfer3 strip_tdef (full_tdef o E0) (full_tdef o E0') (ftext o E0) (ftext o E0') (fdef E0) (fdef E0')
+              (strip_full_tdef o E0 E0' Henv) _ _ Hts Hst) as [Pt Gt].
+  destruct (map_eq_transfer3 strip_ddef (dt_ddef o E0) (dt_ddef o E0') (dtext_d o E0) (dtext_d o E0') (ddef_d E0) (ddef_d E0')
+              (strip_dt_ddef o E0 E0' Henv) _ _ HD Hsd) as [Pd Gd].
+  assert (Hsort_t : sort_by tdef_name (s_types sc') = s_types sc').
+  { apply sort_by_id. apply (sorted_by_keys tdef_name tdef_name _ st); [|apply sort_by_sorted].
+    rewrite <- (strip_names (s_types sc')), <- (strip_names st), Hts. reflexivity. }
+  assert (Hsort_d : sort_by dd_name (s_ddefs sc') = s_ddefs sc').
+  { apply sort_by_id. apply (sorted_by_keys dd_name dd_name _ sd); [|apply sort_by_sorted].
+    rewrite <- (strip_ddef_names (s_ddefs sc')), <- (strip_ddef_names sd), HD. reflexivity. }
+  assert (Pst : Permutation st (s_types sc)) by apply sort_by_perm.
+  assert (Hnd : NoDup (map tdef_name st)).
+  { apply has_dup_NoDup. eapply has_dup_perm; [apply Permutation_map; apply Permutation_sym; exact Pst|exact Hdup]. }
+  assert (Hdr : forall n, default_root (s_types sc') n = default_root (s_types sc) n).
+  { intros n. rewrite (strip_eq_default_root n _ st Hts). unfold default_root.
+    rewrite (find_type_perm st (s_types sc) n Pst Hnd). reflexivity. }
+  assert (Hneeded : schema_def_needed sc' = schema_def_needed sc).
+  { unfold schema_def_needed. rewrite !root_is_default_alt, Rq, Rm, Rs, Rd, !Hdr. reflexivity. }
+  assert (Hsdef : sdef_of sc' = sdef_of sc) by (unfold sdef_of; rewrite Rq, Rm, Rs, Rd; reflexivity).
+  assert (Hstext : sdef_text o sc' = sdef_text o sc) by (unfold sdef_text; rewrite Rq, Rm, Rs, Rd; reflexivity).
+  split.
+  - split; [exact Pt|]. split; [exact Pd|]. split.
+    + destruct Hr as (Hn & Hq & Hm & Hs). unfold plain_roots, dirs_ok in *. rewrite Rq, Rm, Rs, Rd.
+      repeat split; try assumption; apply Hn.
+    + eapply map_eq_nonempty; [exact Hts|]. apply sort_by_nonempty; exact Hne.
+  - unfold full_items. fold E0 E0' st sd. rewrite Hsort_t, Hsort_d, Gt, Gd, Hneeded, Hsdef, Hstext. reflexivity.
+Qed.
+
+Theorem fixpoint_declares_again_full intro spec o sc sc' :
+  full_schema o sc -> all_ws (po_indent o) -> has_dup (map tdef_name (s_types sc)) = false -> declares_again sc sc' ->
+  po_introspection o = false ->
+  print_schema intro spec o sc' = print_schema intro spec o sc.
+Proof.
+  intros Hp Hws Hdup Hda Hi. destruct (declares_again_full o sc sc' Hp Hdup Hda) as [Hp' Hdoc].
+  rewrite (print_schema_full intro spec o sc Hp Hws Hi), (print_schema_full intro spec o sc' Hp' Hws Hi), Hdoc. reflexivity.
+Qed.
+
+Theorem text_roundtrip_fixpoint_full intro spec o fl sc text :
+  full_schema o sc -> valid_locations sc -> schema_okb sc = true -> defaults_guard sc ->
+  po_introspection o = false ->
+  no_location fl = true -> allow_type_system fl = true -> all_ws (po_indent o) ->
+  print_schema intro spec o sc = Ok text ->
+  exists d sc', parse_document fl text = Ok d
+                /\ build_model (BOpts true []) d = Ok sc'
+                /\ roundtrip_equiv sc' sc = true
+                /\ print_schema intro spec o sc' = Ok text.
+Proof.
+  intros Hp Hl Hok Hg Hi Hnl Hts Hws Hprint.
+  destruct (text_roundtrip_full intro spec o fl sc text Hp Hl Hok Hg Hi Hnl Hts Hws Hprint)
+    as (d & sc' & H1 & H2 & H3 & H4).
+  exists d, sc'. repeat split; try assumption. rewrite <- Hprint. apply fixpoint_declares_again_full; try assumption.
+  unfold schema_okb in Hok.
+  apply andb_prop in Hok; destruct Hok as [Hok _].
+  apply andb_prop in Hok; destruct Hok as [Hok _].
+  apply andb_prop in Hok; destruct Hok as [Hok _].
+  apply andb_prop in Hok; destruct Hok as [Hok _].
+  apply andb_prop in Hok; destruct Hok as [Hok _].
+  apply andb_prop in Hok; destruct Hok as [_ Hdupt].
+  apply Bool.negb_true_iff in Hdupt. exact Hdupt.
+Qed.
+
+(* inclusion of the classes *)
+Lemma clear_sf_id f : sf_desc f = None -> clear_sf f = f.
+Proof. destruct f; cbn; intros ->; reflexivity. Qed.
+Lemma clear_sev_id v : sev_desc v = None -> clear_sev v = v.
+Proof. destruct v; cbn; intros ->; reflexivity. Qed.
+Lemma clear_siv_id a : siv_desc a = None -> clear_siv a = a.
+Proof. destruct a; cbn; intros ->; reflexivity. Qed.
+
+Lemma plain_m_tdef o E0 t : plain_tdef o E0 t -> m_tdef o E0 t.
+Proof.
+  intros (Hde & Hdirs & Hname & Hk). split; [exact Hde|]. split; [exact Hdirs|]. split; [exact Hname|].
+  destruct t; try exact Hk.
+  - destruct Hk as (Hne & Hf & Hi). split; [exact Hne|]. split; [|exact Hi].
+    eapply Forall_impl; [|exact Hf]. intros f Hp. pose proof Hp as (Hd & _). split; [rewrite (clear_sf_id f Hd); exact Hp|rewrite Hd; exact I].
+  - destruct Hk as (Hne & Hf). split; [exact Hne|].
+    eapply Forall_impl; [|exact Hf]. intros f Hp. pose proof Hp as (Hd & _). split; [rewrite (clear_sf_id f Hd); exact Hp|rewrite Hd; exact I].
+  - destruct Hk as (Hne & Hf). split; [exact Hne|].
+    eapply Forall_impl; [|exact Hf]. intros f Hp. pose proof Hp as (Hd & _). split; [rewrite (clear_sev_id f Hd); exact Hp|rewrite Hd; exact I].
+  - destruct Hk as (Hne & Hf). split; [exact Hne|].
+    eapply Forall_impl; [|exact Hf]. intros f Hp. pose proof Hp as (_ & Hd & _). split; [rewrite (clear_siv_id f Hd); exact Hp|rewrite Hd; exact I].
+Qed.
+
+Lemma desc_schema_full o sc : desc_schema o sc -> full_schema o sc.
+Proof.
+  intros (Ht & Hd & Hr & Hne). split; [|split; [exact Hd|split; assumption]].
+  eapply Forall_impl; [|exact Ht]. intros t [Hp Hde]. split; [apply plain_m_tdef; exact Hp|exact Hde].
 Qed.
